@@ -293,6 +293,14 @@ impl Model {
             }
             Some(Dec::NoPos) => {
                 stats.undecodable_pairs += 1;
+                // whatever is kept of the stored reports, nothing of the old publication may survive
+                if let Some(d) = obs.and_then(|r| r.distance) {
+                    out.push(Disagreement {
+                        prop: "C13",
+                        clause: "stale_record_after_undecodable_pair",
+                        detail: format!("addr {addr:06x}: the pair even={e:?} odd={o:?} does not decode; position is gone but distance {d} (of the previous position {:?}) is still reported", rec.position),
+                    });
+                }
                 Self::clear(rec, obs_cleared);
             }
             Some(Dec::Ambiguous) | None => {
